@@ -464,6 +464,9 @@ class CompilerPassGenerateCode(CompilerPass):
                         calling_arg = calling_arg.code_expr
                     elif isinstance(calling_arg, IC10Operand):
                         calling_arg = calling_arg.value
+                    if isinstance(calling_arg, bool):
+                        # a folded comparison bound to a parameter: IC10 has no True/False literals
+                        calling_arg = int(calling_arg)
                     arg_sym.code_expr = calling_arg
                 func_data.args.append(arg_sym)
         else:
